@@ -44,3 +44,18 @@ for x in never_called:
 print('keyword parameters never passed by keyword: %d' % len(never_kw))
 for x in never_kw:
     print('   ' + x)
+
+# ---- argument forms: for the parameters that select fields / keys / positions, which forms were used
+print()
+print('forms used for field / key / position parameters (str = a name, int:0 = index 0, ...):')
+FIELDISH = ('key', 'lkey', 'rkey', 'field', 'fields', 'value', 'variables', 'index', 'include', 'exclude', 'source_field', 'f1', 'f2', 'f3',
+            'n', 'start', 'stop', 'step', 'period', 'buffersize', 'sample', 'samplesize', 'limit', 'header', 'missing')
+forms = {}
+for f in sorted(glob.glob(os.path.join(evdir, 'C*.json'))):
+    d = json.load(open(f))
+    for fn, v in d['coverage'].get('petl_calls_by_function', {}).items():
+        for p, shapes in v.get('argument_forms', {}).items():
+            forms.setdefault((fn, p), set()).update(shapes)
+for (fn, p), shapes in sorted(forms.items()):
+    if p in FIELDISH:
+        print('   %s(%s): %s' % (fn, p, ', '.join(sorted(shapes))))
